@@ -1,10 +1,516 @@
 import PyxModel.Sexp
+import PyxModel.Oal.Expr
+import PyxModel.Oal.Stmt
+import Gen.OalPrec
 
-/-! driver commands of property C07 (stub: no command yet) -/
+/-!
+  driver commands of property C07
+
+    (c07 <tree | none> (KIND "lexeme") (KIND "lexeme") …)
+      -> ((printed (KIND "lexeme") … | none | bad-tree) (parsed <tree> | error))
+
+  `printed`: the model's `printStmts` of the given tree (compared with the token stream of the text the
+  harness wrote); `parsed`: the model's `parseStmts` of the given PLY token stream, as a tree in the same
+  format (the harness converts it to the oal.py node encoding and compares it with PLY's tree).
+  Both run with the GENERATED precedence table.  Tree format = the constructors of PyxModel/Oal.
+-/
 namespace Pyx.Driver.C07
-open Pyx Pyx.Sexp
+open Pyx Pyx.Sexp Pyx.Oal
+
+def kindName : Kind → String
+  | .ASSIGN => "ASSIGN"
+  | .ASSIGNER => "ASSIGNER"
+  | .BREAK => "BREAK"
+  | .BRIDGE => "BRIDGE"
+  | .SEND => "SEND"
+  | .CONTROL => "CONTROL"
+  | .STOP => "STOP"
+  | .CONTINUE => "CONTINUE"
+  | .CREATE => "CREATE"
+  | .EVENT => "EVENT"
+  | .INSTANCE => "INSTANCE"
+  | .OF => "OF"
+  | .OBJECT => "OBJECT"
+  | .DELETE => "DELETE"
+  | .FOR => "FOR"
+  | .EACH => "EACH"
+  | .IN => "IN"
+  | .GENERATE => "GENERATE"
+  | .IF => "IF"
+  | .ELIF => "ELIF"
+  | .ELSE => "ELSE"
+  | .RELATE => "RELATE"
+  | .TO => "TO"
+  | .ACROSS => "ACROSS"
+  | .USING => "USING"
+  | .RETURN => "RETURN"
+  | .SELECT => "SELECT"
+  | .ONE => "ONE"
+  | .ANY => "ANY"
+  | .MANY => "MANY"
+  | .TRANSFORM => "TRANSFORM"
+  | .UNRELATE => "UNRELATE"
+  | .FROM => "FROM"
+  | .WHILE => "WHILE"
+  | .CLASS => "CLASS"
+  | .CREATOR => "CREATOR"
+  | .RELATED => "RELATED"
+  | .BY => "BY"
+  | .INSTANCES => "INSTANCES"
+  | .WHERE => "WHERE"
+  | .CARDINALITY => "CARDINALITY"
+  | .EMPTY => "EMPTY"
+  | .FALSE => "FALSE"
+  | .NOT => "NOT"
+  | .NOT_EMPTY => "NOT_EMPTY"
+  | .TRUE => "TRUE"
+  | .AND => "AND"
+  | .OR => "OR"
+  | .PARAM => "PARAM"
+  | .RCVD_EVT => "RCVD_EVT"
+  | .SELF => "SELF"
+  | .SELECTED => "SELECTED"
+  | .LOOP => "LOOP"
+  | .THEN => "THEN"
+  | .SEMICOLON => "SEMICOLON"
+  | .EQUAL => "EQUAL"
+  | .DOT => "DOT"
+  | .DOUBLECOLON => "DOUBLECOLON"
+  | .LPAREN => "LPAREN"
+  | .RPAREN => "RPAREN"
+  | .TIMES => "TIMES"
+  | .COLON => "COLON"
+  | .COMMA => "COMMA"
+  | .ARROW => "ARROW"
+  | .LSQBR => "LSQBR"
+  | .RSQBR => "RSQBR"
+  | .ID => "ID"
+  | .NAMESPACE => "NAMESPACE"
+  | .END_FOR => "END_FOR"
+  | .END_IF => "END_IF"
+  | .END_WHILE => "END_WHILE"
+  | .TICKED_PHRASE => "TICKED_PHRASE"
+  | .QMARK => "QMARK"
+  | .FRACTION => "FRACTION"
+  | .NUMBER => "NUMBER"
+  | .STRING => "STRING"
+  | .DOUBLEEQUAL => "DOUBLEEQUAL"
+  | .NOTEQUAL => "NOTEQUAL"
+  | .LESSTHAN => "LESSTHAN"
+  | .LE => "LE"
+  | .GT => "GT"
+  | .GE => "GE"
+  | .PLUS => "PLUS"
+  | .MINUS => "MINUS"
+  | .PIPE => "PIPE"
+  | .DIV => "DIV"
+  | .MOD => "MOD"
+  | .AMP => "AMP"
+  | .CARET => "CARET"
+
+def kindOf : String → Option Kind
+  | "ASSIGN" => some .ASSIGN
+  | "ASSIGNER" => some .ASSIGNER
+  | "BREAK" => some .BREAK
+  | "BRIDGE" => some .BRIDGE
+  | "SEND" => some .SEND
+  | "CONTROL" => some .CONTROL
+  | "STOP" => some .STOP
+  | "CONTINUE" => some .CONTINUE
+  | "CREATE" => some .CREATE
+  | "EVENT" => some .EVENT
+  | "INSTANCE" => some .INSTANCE
+  | "OF" => some .OF
+  | "OBJECT" => some .OBJECT
+  | "DELETE" => some .DELETE
+  | "FOR" => some .FOR
+  | "EACH" => some .EACH
+  | "IN" => some .IN
+  | "GENERATE" => some .GENERATE
+  | "IF" => some .IF
+  | "ELIF" => some .ELIF
+  | "ELSE" => some .ELSE
+  | "RELATE" => some .RELATE
+  | "TO" => some .TO
+  | "ACROSS" => some .ACROSS
+  | "USING" => some .USING
+  | "RETURN" => some .RETURN
+  | "SELECT" => some .SELECT
+  | "ONE" => some .ONE
+  | "ANY" => some .ANY
+  | "MANY" => some .MANY
+  | "TRANSFORM" => some .TRANSFORM
+  | "UNRELATE" => some .UNRELATE
+  | "FROM" => some .FROM
+  | "WHILE" => some .WHILE
+  | "CLASS" => some .CLASS
+  | "CREATOR" => some .CREATOR
+  | "RELATED" => some .RELATED
+  | "BY" => some .BY
+  | "INSTANCES" => some .INSTANCES
+  | "WHERE" => some .WHERE
+  | "CARDINALITY" => some .CARDINALITY
+  | "EMPTY" => some .EMPTY
+  | "FALSE" => some .FALSE
+  | "NOT" => some .NOT
+  | "NOT_EMPTY" => some .NOT_EMPTY
+  | "TRUE" => some .TRUE
+  | "AND" => some .AND
+  | "OR" => some .OR
+  | "PARAM" => some .PARAM
+  | "RCVD_EVT" => some .RCVD_EVT
+  | "SELF" => some .SELF
+  | "SELECTED" => some .SELECTED
+  | "LOOP" => some .LOOP
+  | "THEN" => some .THEN
+  | "SEMICOLON" => some .SEMICOLON
+  | "EQUAL" => some .EQUAL
+  | "DOT" => some .DOT
+  | "DOUBLECOLON" => some .DOUBLECOLON
+  | "LPAREN" => some .LPAREN
+  | "RPAREN" => some .RPAREN
+  | "TIMES" => some .TIMES
+  | "COLON" => some .COLON
+  | "COMMA" => some .COMMA
+  | "ARROW" => some .ARROW
+  | "LSQBR" => some .LSQBR
+  | "RSQBR" => some .RSQBR
+  | "ID" => some .ID
+  | "NAMESPACE" => some .NAMESPACE
+  | "END_FOR" => some .END_FOR
+  | "END_IF" => some .END_IF
+  | "END_WHILE" => some .END_WHILE
+  | "TICKED_PHRASE" => some .TICKED_PHRASE
+  | "QMARK" => some .QMARK
+  | "FRACTION" => some .FRACTION
+  | "NUMBER" => some .NUMBER
+  | "STRING" => some .STRING
+  | "DOUBLEEQUAL" => some .DOUBLEEQUAL
+  | "NOTEQUAL" => some .NOTEQUAL
+  | "LESSTHAN" => some .LESSTHAN
+  | "LE" => some .LE
+  | "GT" => some .GT
+  | "GE" => some .GE
+  | "PLUS" => some .PLUS
+  | "MINUS" => some .MINUS
+  | "PIPE" => some .PIPE
+  | "DIV" => some .DIV
+  | "MOD" => some .MOD
+  | "AMP" => some .AMP
+  | "CARET" => some .CARET
+  | _ => none
+
+def tbl : Tbl := Pyx.Gen.OalPrec.table
+
+def encTok (t : Tok) : Sexp := list [sym (kindName t.kind), str t.lex]
+
+def decTok : Sexp → Option Tok
+  | list [sym k, str s] => (kindOf k).map fun kk => ⟨kk, s⟩
+  | _ => none
+
+def decToks : List Sexp → Option (List Tok)
+  | [] => some []
+  | x :: xs => do
+    let t ← decTok x
+    let ts ← decToks xs
+    pure (t :: ts)
+
+def encBool (b : Bool) : Sexp := ofBool b
+def decBool : Sexp → Option Bool
+  | sym "T" => some true
+  | sym "F" => some false
+  | _ => none
+
+def encOptStr : Option String → Sexp
+  | some s => str s
+  | none => sym "none"
+def decOptStr : Sexp → Option (Option String)
+  | str s => some (some s)
+  | sym "none" => some none
+  | _ => none
+
+mutual
+def encExpr : Expr → Sexp
+  | .int v => list [sym "int", str v]
+  | .real v => list [sym "real", str v]
+  | .str v => list [sym "str", str v]
+  | .bool b v => list [sym "bool", encBool b, str v]
+  | .enumc ns n => list [sym "enumc", str ns, str n]
+  | .var n => list [sym "var", str n]
+  | .self => list [sym "self"]
+  | .selected => list [sym "selected"]
+  | .param n => list [sym "param", str n]
+  | .field h n => list [sym "field", encExpr h, str n]
+  | .index h i => list [sym "index", encExpr h, encExpr i]
+  | .fcall n ps => list [sym "fcall", str n, list (encParams ps)]
+  | .icall ns n ps => list [sym "icall", str ns, str n, list (encParams ps)]
+  | .ocall h n ps => list [sym "ocall", encExpr h, str n, list (encParams ps)]
+  | .un op e => list [sym "un", sym (kindName op.kind), str op.lex, encExpr e]
+  | .bin l op r => list [sym "bin", encExpr l, sym (kindName op.kind), str op.lex, encExpr r]
+def encParams : Params → List Sexp
+  | .nil => []
+  | .cons n e ps => list [str n, encExpr e] :: encParams ps
+end
+
+mutual
+partial def decExpr : Sexp → Option Expr
+  | list [sym "int", str v] => some (.int v)
+  | list [sym "real", str v] => some (.real v)
+  | list [sym "str", str v] => some (.str v)
+  | list [sym "bool", b, str v] => (decBool b).map fun bb => .bool bb v
+  | list [sym "enumc", str ns, str n] => some (.enumc ns n)
+  | list [sym "var", str n] => some (.var n)
+  | list [sym "self"] => some .self
+  | list [sym "selected"] => some .selected
+  | list [sym "param", str n] => some (.param n)
+  | list [sym "field", h, str n] => (decExpr h).map fun hh => .field hh n
+  | list [sym "index", h, i] => do
+    let hh ← decExpr h
+    let ii ← decExpr i
+    pure (.index hh ii)
+  | list [sym "fcall", str n, list ps] => (decParams ps).map fun pp => .fcall n pp
+  | list [sym "icall", str ns, str n, list ps] => (decParams ps).map fun pp => .icall ns n pp
+  | list [sym "ocall", h, str n, list ps] => do
+    let hh ← decExpr h
+    let pp ← decParams ps
+    pure (.ocall hh n pp)
+  | list [sym "un", sym k, str s, e] => do
+    let kk ← kindOf k
+    let ee ← decExpr e
+    pure (.un ⟨kk, s⟩ ee)
+  | list [sym "bin", l, sym k, str s, r] => do
+    let ll ← decExpr l
+    let kk ← kindOf k
+    let rr ← decExpr r
+    pure (.bin ll ⟨kk, s⟩ rr)
+  | _ => none
+partial def decParams : List Sexp → Option Params
+  | [] => some .nil
+  | list [str n, e] :: rest => do
+    let ee ← decExpr e
+    let pp ← decParams rest
+    pure (.cons n ee pp)
+  | _ => none
+end
+
+def encOptExpr : Option Expr → Sexp
+  | some e => encExpr e
+  | none => sym "none"
+def decOptExpr : Sexp → Option (Option Expr)
+  | sym "none" => some none
+  | x => (decExpr x).map some
+
+def encCard (c : CardTok) : Sexp :=
+  list [sym (match c.c with | .one => "one" | .any => "any" | .many => "many"), str c.lex]
+def decCard : Sexp → Option CardTok
+  | list [sym "one", str s] => some ⟨.one, s⟩
+  | list [sym "any", str s] => some ⟨.any, s⟩
+  | list [sym "many", str s] => some ⟨.many, s⟩
+  | _ => none
+
+def encInst : InstName → Sexp
+  | .var n => list [sym "var", str n]
+  | .self s => list [sym "self", str s]
+def decInst : Sexp → Option InstName
+  | list [sym "var", str n] => some (.var n)
+  | list [sym "self", str s] => some (.self s)
+  | _ => none
+def encOptInst : Option InstName → Sexp
+  | some i => encInst i
+  | none => sym "none"
+def decOptInst : Sexp → Option (Option InstName)
+  | sym "none" => some none
+  | x => (decInst x).map some
+
+def encStep (s : NavStep) : Sexp := list [str s.kl, str s.rel, encOptStr s.phrase]
+def decStep : Sexp → Option NavStep
+  | list [str kl, str r, p] => (decOptStr p).map fun pp => ⟨kl, r, pp⟩
+  | _ => none
+def decSteps : List Sexp → Option (List NavStep)
+  | [] => some []
+  | x :: xs => do
+    let s ← decStep x
+    let ss ← decSteps xs
+    pure (s :: ss)
+
+def encEv (es : EvSpec) : Sexp :=
+  list [str es.id, encBool es.star, encOptStr es.meaning, encBool es.parens, list (encParams es.data)]
+def decEv : Sexp → Option EvSpec
+  | list [str id, st, m, pa, list ps] => do
+    let s ← decBool st
+    let mm ← decOptStr m
+    let p ← decBool pa
+    let pp ← decParams ps
+    pure ⟨id, s, mm, p, pp⟩
+  | _ => none
+
+def encTarget : EvTarget → Sexp
+  | .cls kl a => list [sym "cls", str kl, encBool a]
+  | .creator kl => list [sym "creator", str kl]
+  | .inst e => list [sym "inst", encExpr e]
+def decTarget : Sexp → Option EvTarget
+  | list [sym "cls", str kl, a] => (decBool a).map fun aa => .cls kl aa
+  | list [sym "creator", str kl] => some (.creator kl)
+  | list [sym "inst", e] => (decExpr e).map .inst
+  | _ => none
+
+def encIKind : IKind → Sexp
+  | .bridge => sym "bridge"
+  | .cls => sym "cls"
+  | .port => sym "port"
+def decIKind : Sexp → Option IKind
+  | sym "bridge" => some .bridge
+  | sym "cls" => some .cls
+  | sym "port" => some .port
+  | _ => none
+
+mutual
+def encStmt : Stmt → Sexp
+  | .brk => list [sym "brk"]
+  | .cont => list [sym "cont"]
+  | .ctrl => list [sym "ctrl"]
+  | .ret e => list [sym "ret", encOptExpr e]
+  | .assign kw va e => list [sym "assign", encBool kw, encExpr va, encExpr e]
+  | .invoke inv => list [sym "invoke", encExpr inv]
+  | .kwCall k va ns n ps => list [sym "kwCall", encIKind k, encOptExpr va, str ns, str n, list (encParams ps)]
+  | .trCall va h n ps => list [sym "trCall", encOptExpr va, encExpr h, str n, list (encParams ps)]
+  | .sendEvent p n ps to => list [sym "sendEvent", str p, str n, list (encParams ps), encExpr to]
+  | .gen es tg => list [sym "gen", encEv es, encTarget tg]
+  | .genPre va => list [sym "genPre", encExpr va]
+  | .crtEv v es tg => list [sym "crtEv", str v, encEv es, encTarget tg]
+  | .createObj v kl => list [sym "createObj", str v, str kl]
+  | .createObjNoVar kl => list [sym "createObjNoVar", str kl]
+  | .delete i => list [sym "delete", encInst i]
+  | .forEach v s lp b => list [sym "forEach", str v, str s, encBool lp, list (encBlock b)]
+  | .while_ c lp b => list [sym "while", encExpr c, encBool lp, list (encBlock b)]
+  | .if_ c th b el e => list [sym "if", encExpr c, encBool th, list (encBlock b), list (encElifs el), encElse e]
+  | .rel un a b r ph u => list [sym "rel", encBool un, encInst a, encInst b, str r, encOptStr ph, encOptInst u]
+  | .selFrom card v io kl w => list [sym "selFrom", encCard card, str v, encBool io, str kl, encOptExpr w]
+  | .selRel card v hook chain w =>
+    list [sym "selRel", encCard card, str v, encExpr hook, list (chain.map encStep), encOptExpr w]
+def encBlock : Block → List Sexp
+  | .nil => []
+  | .cons s b => encStmt s :: encBlock b
+def encElifs : Elifs → List Sexp
+  | .nil => []
+  | .cons c th b more => list [encExpr c, encBool th, list (encBlock b)] :: encElifs more
+def encElse : Else → Sexp
+  | .none => sym "none"
+  | .some b => list [sym "else", list (encBlock b)]
+end
+
+mutual
+partial def decStmt : Sexp → Option Stmt
+  | list [sym "brk"] => some .brk
+  | list [sym "cont"] => some .cont
+  | list [sym "ctrl"] => some .ctrl
+  | list [sym "ret", e] => (decOptExpr e).map .ret
+  | list [sym "assign", kw, va, e] => do
+    let k ← decBool kw
+    let v ← decExpr va
+    let ee ← decExpr e
+    pure (.assign k v ee)
+  | list [sym "invoke", inv] => (decExpr inv).map .invoke
+  | list [sym "kwCall", k, va, str ns, str n, list ps] => do
+    let kk ← decIKind k
+    let v ← decOptExpr va
+    let pp ← decParams ps
+    pure (.kwCall kk v ns n pp)
+  | list [sym "trCall", va, h, str n, list ps] => do
+    let v ← decOptExpr va
+    let hh ← decExpr h
+    let pp ← decParams ps
+    pure (.trCall v hh n pp)
+  | list [sym "sendEvent", str p, str n, list ps, to] => do
+    let pp ← decParams ps
+    let tt ← decExpr to
+    pure (.sendEvent p n pp tt)
+  | list [sym "gen", es, tg] => do
+    let e ← decEv es
+    let t ← decTarget tg
+    pure (.gen e t)
+  | list [sym "genPre", va] => (decExpr va).map .genPre
+  | list [sym "crtEv", str v, es, tg] => do
+    let e ← decEv es
+    let t ← decTarget tg
+    pure (.crtEv v e t)
+  | list [sym "createObj", str v, str kl] => some (.createObj v kl)
+  | list [sym "createObjNoVar", str kl] => some (.createObjNoVar kl)
+  | list [sym "delete", i] => (decInst i).map .delete
+  | list [sym "forEach", str v, str s, lp, list b] => do
+    let l ← decBool lp
+    let bb ← decBlock b
+    pure (.forEach v s l bb)
+  | list [sym "while", c, lp, list b] => do
+    let cc ← decExpr c
+    let l ← decBool lp
+    let bb ← decBlock b
+    pure (.while_ cc l bb)
+  | list [sym "if", c, th, list b, list el, e] => do
+    let cc ← decExpr c
+    let t ← decBool th
+    let bb ← decBlock b
+    let ee ← decElifs el
+    let es ← decElse e
+    pure (.if_ cc t bb ee es)
+  | list [sym "rel", un, a, b, str r, ph, u] => do
+    let uu ← decBool un
+    let aa ← decInst a
+    let bb ← decInst b
+    let pp ← decOptStr ph
+    let us ← decOptInst u
+    pure (.rel uu aa bb r pp us)
+  | list [sym "selFrom", card, str v, io, str kl, w] => do
+    let c ← decCard card
+    let i ← decBool io
+    let ww ← decOptExpr w
+    pure (.selFrom c v i kl ww)
+  | list [sym "selRel", card, str v, hook, list chain, w] => do
+    let c ← decCard card
+    let h ← decExpr hook
+    let ch ← decSteps chain
+    let ww ← decOptExpr w
+    pure (.selRel c v h ch ww)
+  | _ => none
+partial def decBlock : List Sexp → Option Block
+  | [] => some .nil
+  | x :: xs => do
+    let s ← decStmt x
+    let b ← decBlock xs
+    pure (.cons s b)
+partial def decElifs : List Sexp → Option Elifs
+  | [] => some .nil
+  | list [c, th, list b] :: xs => do
+    let cc ← decExpr c
+    let t ← decBool th
+    let bb ← decBlock b
+    let more ← decElifs xs
+    pure (.cons cc t bb more)
+  | _ => none
+partial def decElse : Sexp → Option Else
+  | sym "none" => some .none
+  | list [sym "else", list b] => (decBlock b).map .some
+  | _ => none
+end
+
+def printed : Sexp → Sexp
+  | sym "none" => sym "none"
+  | list b =>
+    match decBlock b with
+    | some blk => list (sym "printed" :: (printStmts tbl blk).map encTok)
+    | none => sym "bad-tree"
+  | _ => sym "bad-tree"
+
+def parsed (toks : List Sexp) : Sexp :=
+  match decToks toks with
+  | some ts =>
+    match parseStmts tbl ts with
+    | some b => list [sym "parsed", list (encBlock b)]
+    | none => sym "error"
+  | none => sym "bad-tokens"
 
 def handle : List Sexp → Option Sexp
+  | sym "c07" :: tree :: toks => some (list [printed tree, parsed toks])
   | _ => none
 
 end Pyx.Driver.C07
